@@ -150,7 +150,7 @@ func (x *Exec) usesWF() bool {
 	if x.pure || len(x.W.CS.GlobalInvs) == 0 {
 		return false
 	}
-	if x.C != nil && (x.C.Flags["nowf"] || x.C.Flags["helper"] || x.C.Flags["pure"]) {
+	if x.C != nil && (x.C.Flags["nowf"] || x.C.Flags["helper"]) {
 		return false
 	}
 	return true
